@@ -1,7 +1,7 @@
 use crate::{b, u, Host};
 use sc62015_core::memory::MemoryImage;
 use sc62015_core::timer::TimerContext;
-use sc62015_core::KeyboardMatrix;
+use sc62015_core::{KeyboardMatrix, LcdController};
 use serde_json::{json, Value};
 
 pub fn dispatch(host: &mut Host, name: &str, op: &Value) -> Result<Option<Value>, String> {
@@ -11,7 +11,112 @@ pub fn dispatch(host: &mut Host, name: &str, op: &Value) -> Result<Option<Value>
     if let Some(rest) = name.strip_prefix("k.") {
         return keyboard(host, rest, op);
     }
+    if let Some(rest) = name.strip_prefix("l.") {
+        return lcd(host, rest, op);
+    }
     Err(format!("unknown component op {name}"))
+}
+
+fn lcd_regs(lcd: &LcdController) -> Value {
+    let (meta, vram) = lcd.export_snapshot();
+    let mut chips: Vec<Value> = Vec::new();
+    if let Some(arr) = meta.get("chips").and_then(|v| v.as_array()) {
+        for (i, c) in arr.iter().enumerate() {
+            let base = i * 512;
+            let sum = crc32fast::hash(&vram[base..base + 512]);
+            chips.push(json!([
+                c.get("on"), c.get("start_line"), c.get("page"), c.get("y_address"), c.get("busy"), sum
+            ]));
+        }
+    }
+    Value::Array(chips)
+}
+
+fn pixels(lcd: &LcdController) -> Vec<Vec<u8>> {
+    let buf = lcd.display_buffer();
+    buf.iter().map(|row| row.to_vec()).collect()
+}
+
+/// LcdController component level (C15).
+fn lcd(host: &mut Host, name: &str, op: &Value) -> Result<Option<Value>, String> {
+    let slot = u(op, 1)?;
+    match name {
+        "new" => {
+            host.lcds.insert(slot, LcdController::new());
+            Ok(None)
+        }
+        "script" => {
+            // ["l.script", slot, [[0,addr,val]|[1,addr]...], want_pixels]
+            let lcd = host.lcds.get_mut(&slot).ok_or_else(|| format!("no lcd {slot}"))?;
+            let script = op.get(2).and_then(|x| x.as_array()).ok_or_else(|| "ops".to_string())?;
+            let want_pixels = op.get(3).and_then(|x| x.as_bool()).unwrap_or(false);
+            let mut out: Vec<Value> = Vec::new();
+            for step in script {
+                let kind = u(step, 0)?;
+                let addr = u(step, 1)? as u32;
+                let mut ret = Value::Null;
+                let before = if want_pixels && kind == 0 { Some(pixels(lcd)) } else { None };
+                if kind == 0 {
+                    lcd.write(addr, u(step, 2)? as u8);
+                } else {
+                    ret = match lcd.read(addr) {
+                        Some(v) => json!(v),
+                        None => Value::Null,
+                    };
+                }
+                let mut changed = Value::Null;
+                if let Some(b) = before {
+                    let a = pixels(lcd);
+                    let mut diff: Vec<Value> = Vec::new();
+                    for (r, (ra, rb)) in a.iter().zip(b.iter()).enumerate() {
+                        for (c, (pa, pb)) in ra.iter().zip(rb.iter()).enumerate() {
+                            if pa != pb {
+                                diff.push(json!([r, c]));
+                            }
+                        }
+                    }
+                    changed = Value::Array(diff);
+                }
+                out.push(json!([ret, lcd_regs(lcd), changed, lcd.handles(addr)]));
+            }
+            let (meta, vram) = lcd.export_snapshot();
+            let px: Vec<String> = pixels(lcd)
+                .iter()
+                .map(|row| row.iter().map(|p| if *p != 0 { '1' } else { '0' }).collect())
+                .collect();
+            Ok(Some(json!({"trace": out, "vram": vram, "meta": meta, "pixels": px})))
+        }
+        "flip" => {
+            // ["l.flip", slot, [[chip,page,col,bit]...]] -> for each bit the display pixels that change
+            let bits = op.get(2).and_then(|x| x.as_array()).ok_or_else(|| "bits".to_string())?;
+            let mut out: Vec<Value> = Vec::new();
+            for b in bits {
+                let chip = u(b, 0)? as u32;
+                let page = u(b, 1)? as u8;
+                let col = u(b, 2)? as u8;
+                let bit = u(b, 3)? as u8;
+                let mut lcd = LcdController::new();
+                lcd.write(0x2000, 0x3F); // both chips on
+                let base = pixels(&lcd);
+                let cs = if chip == 0 { 0x8 } else { 0x4 }; // left = CS 10, right = CS 01
+                lcd.write(0x2000 | cs, 0xB8 | page);
+                lcd.write(0x2000 | cs, 0x40 | col);
+                lcd.write(0x2000 | cs | 2, 1u8 << bit);
+                let after = pixels(&lcd);
+                let mut diff: Vec<Value> = Vec::new();
+                for (r, (ra, rb)) in after.iter().zip(base.iter()).enumerate() {
+                    for (c, (pa, pb)) in ra.iter().zip(rb.iter()).enumerate() {
+                        if pa != pb {
+                            diff.push(json!([r, c]));
+                        }
+                    }
+                }
+                out.push(Value::Array(diff));
+            }
+            Ok(Some(Value::Array(out)))
+        }
+        _ => Err(format!("unknown lcd op l.{name}")),
+    }
 }
 
 fn kb_state(kb: &KeyboardMatrix, mem: &MemoryImage, codes: &[u8]) -> Value {
